@@ -1,7 +1,7 @@
 (* FParseFacts.v — facts about the Fortran-text parser of FParse.v. *)
-From Coq Require Import Ascii String List Bool ZArith Arith.
+From Coq Require Import Ascii String List Bool ZArith Arith Lia DecimalString DecimalNat.
 Import ListNotations.
-Require Import FText FSem FParse.
+Require Import FText FTextFacts FSem FParse.
 Open Scope Z_scope.
 
 (* re-reading the Python tree the Fortran way commutes with giving the decimal literals their values: the tree K compares
@@ -47,3 +47,141 @@ Example block_matches_example :
   block_matches (block (lit "Y[t] = -X[t] * Z[t-1]") [lit "solved_values(1, index) = -solved_values(2, index) *"; lit "solved_values(3, index-1)"])
                 0 (SBin OMul (SNeg (SVar 1 0)) (SVar 2 (-1))) = true.
 Proof. vm_compute. reflexivity. Qed.
+
+(* ================================================================== the rewritten term is read back as its variable node *)
+Lemma digits_acc (u : Decimal.uint) : forall acc : nat,
+  fold_left (fun a c => a * 10 + digit_val c) (lit (NilEmpty.string_of_uint u)) (Z.of_nat acc) = Z.of_nat (Nat.of_uint_acc u acc).
+Proof.
+  induction u as [|u IH|u IH|u IH|u IH|u IH|u IH|u IH|u IH|u IH|u IH]; intros acc;
+    cbn [NilEmpty.string_of_uint lit list_ascii_of_string fold_left Nat.of_uint_acc]; try reflexivity;
+    rewrite <- IH; f_equal; rewrite Nat.tail_mul_spec; unfold digit_val, code_of;
+    match goal with |- context [nat_of_ascii ?c] => let v := eval vm_compute in (nat_of_ascii c) in change (nat_of_ascii c) with v end; lia.
+Qed.
+
+Lemma digits_val_dec n : digits_val (dec n) = Z.of_nat n.
+Proof.
+  unfold digits_val, dec, NilZero.string_of_uint.
+  rewrite <- (Unsigned.of_to n) at 2. unfold Nat.of_uint.
+  destruct (Nat.to_uint n) as [|u|u|u|u|u|u|u|u|u|u]; try (apply (digits_acc _ 0%nat)). reflexivity.
+Qed.
+
+(* ------------------------------------------------------------------ lexing, token by token *)
+Definition lcons (t : tok) (r : option (list tok)) : option (list tok) :=
+  match r with Some ts => Some (t :: ts) | None => None end.
+
+Lemma digit_not_blank c : is_digit c = true -> is_blank c = false.
+Proof.
+  unfold is_digit, is_blank, code_of. intros H. apply andb_true_iff in H as [H1 H2].
+  apply Nat.leb_le in H1. apply Nat.eqb_neq. lia.
+Qed.
+
+Lemma id_start_facts c : is_id_start c = true -> is_blank c = false /\ is_digit c = false /\ ascii_eqb c "." = false.
+Proof.
+  unfold is_id_start, is_blank, is_digit, ascii_eqb, code_of. change (nat_of_ascii ".") with 46%nat.
+  intros H. repeat split.
+  - apply Nat.eqb_neq. intros E. rewrite E in H. discriminate.
+  - destruct (48 <=? nat_of_ascii c)%nat eqn:E1; [|reflexivity]. destruct (nat_of_ascii c <=? 57)%nat eqn:E2; [|reflexivity].
+    apply Nat.leb_le in E1. apply Nat.leb_le in E2. exfalso.
+    apply orb_true_iff in H as [H|H]; [apply orb_true_iff in H as [H|H]|].
+    + apply Nat.eqb_eq in H. lia.
+    + apply andb_true_iff in H as [H3 H4]. apply Nat.leb_le in H3. lia.
+    + apply andb_true_iff in H as [H3 H4]. apply Nat.leb_le in H3. lia.
+  - apply Nat.eqb_neq. intros E. rewrite E in H. discriminate.
+Qed.
+
+Definition ends_token (p : ascii -> bool) (rest : str) : Prop := match rest with [] => True | d :: _ => p d = false end.
+
+Lemma lex_int f (ds rest : str) :
+  ds <> [] -> forallb is_digit ds = true -> ends_token is_digit rest -> ends_token (fun d => ascii_eqb d ".") rest ->
+  lex (S f) (ds ++ rest) = lcons (TInt (digits_val ds)) (lex f rest).
+Proof.
+  intros Hne Hd He Hdot. destruct ds as [|c ds']; [contradiction|].
+  assert (Hc : is_digit c = true) by (cbn [forallb] in Hd; apply andb_true_iff in Hd as [Hc _]; exact Hc).
+  destruct (take_while_all is_digit (c :: ds') rest Hd) as [Ht Hdr].
+  { destruct rest; [exact I|exact He]. }
+  change ((c :: ds') ++ rest) with (c :: ds' ++ rest) in *.
+  cbn [lex]. rewrite (digit_not_blank c Hc), Hc. rewrite Ht, Hdr.
+  destruct rest as [|d r2]; [reflexivity|]. cbn [ends_token] in Hdot. rewrite Hdot. reflexivity.
+Qed.
+
+Lemma lex_id f c (cs rest : str) :
+  is_id_start c = true -> forallb is_id_char cs = true -> ends_token is_id_char rest ->
+  lex (S f) ((c :: cs) ++ rest) = lcons (TId (c :: cs)) (lex f rest).
+Proof.
+  intros Hc Hcs He. destruct (id_start_facts c Hc) as (H1 & H2 & H3).
+  destruct (take_while_all is_id_char cs rest Hcs) as [Ht Hdr].
+  { destruct rest; [exact I|exact He]. }
+  change ((c :: cs) ++ rest) with (c :: cs ++ rest).
+  cbn [lex]. rewrite H1, H2, H3, Hc, Ht, Hdr. reflexivity.
+Qed.
+
+Lemma dec_nonempty n : dec n <> [].
+Proof.
+  unfold dec, NilZero.string_of_uint. destruct (Nat.to_uint n) eqn:E; try discriminate.
+Qed.
+Lemma dec_all_digits n : forallb is_digit (dec n) = true.
+Proof. apply forallb_forall. intros c H. apply (dec_digits n c H). Qed.
+
+(* the tokens of `solved_values(n, index+k)` *)
+Definition term_toks (n : nat) (k : Z) : list tok :=
+  [TId (lit "solved_values"); TLp; TInt (Z.of_nat n); TComma; TId (lit "index")]
+  ++ match k with Z0 => [] | Zpos q => [TPlus; TInt (Zpos q)] | Zneg q => [TMinus; TInt (Zpos q)] end
+  ++ [TRp].
+
+Lemma lex_lp f r : lex (S f) ("("%char :: r) = lcons TLp (lex f r). Proof. reflexivity. Qed.
+Lemma lex_comma f r : lex (S f) (","%char :: r) = lcons TComma (lex f r). Proof. reflexivity. Qed.
+Lemma lex_blank f r : lex (S f) (" "%char :: r) = lex f r. Proof. reflexivity. Qed.
+Lemma lex_plus f r : lex (S f) ("+"%char :: r) = lcons TPlus (lex f r). Proof. reflexivity. Qed.
+Lemma lex_minus f r : lex (S f) ("-"%char :: r) = lcons TMinus (lex f r). Proof. reflexivity. Qed.
+Lemma lex_rp_end f : lex (S f) [")"%char] = Some [TRp]. Proof. destruct f; reflexivity. Qed.
+
+Lemma lex_term n k fuel : (10 <= fuel)%nat ->
+  lex fuel (lit "solved_values(" ++ dec n ++ lit ", " ++ f_idx_text k ++ lit ")") = Some (term_toks n k).
+Proof.
+  intros Hf. do 10 (destruct fuel as [|fuel]; [lia|]). clear Hf.
+  change (lit "solved_values(" ++ dec n ++ lit ", " ++ f_idx_text k ++ lit ")")
+    with (("s"%char :: lit "olved_values") ++ "("%char :: dec n ++ ","%char :: " "%char :: f_idx_text k ++ [")"%char]).
+  rewrite lex_id by reflexivity.
+  rewrite lex_lp.
+  rewrite (lex_int _ (dec n)); [|apply dec_nonempty|apply dec_all_digits|reflexivity|reflexivity].
+  rewrite digits_val_dec.
+  rewrite lex_comma, lex_blank.
+  destruct k as [|q|q]; cbn [f_idx_text term_toks app].
+  - change (lit "index" ++ [")"%char]) with (("i"%char :: lit "ndex") ++ [")"%char]).
+    rewrite lex_id by reflexivity. rewrite lex_rp_end. reflexivity.
+  - change ((lit "index+" ++ dec (Pos.to_nat q)) ++ [")"%char]) with (("i"%char :: lit "ndex") ++ "+"%char :: dec (Pos.to_nat q) ++ [")"%char]).
+    rewrite lex_id by reflexivity.
+    rewrite lex_plus.
+    rewrite (lex_int _ (dec (Pos.to_nat q))); [|apply dec_nonempty|apply dec_all_digits|reflexivity|reflexivity].
+    rewrite digits_val_dec, positive_nat_Z, lex_rp_end. reflexivity.
+  - change ((lit "index-" ++ dec (Pos.to_nat q)) ++ [")"%char]) with (("i"%char :: lit "ndex") ++ "-"%char :: dec (Pos.to_nat q) ++ [")"%char]).
+    rewrite lex_id by reflexivity.
+    rewrite lex_minus.
+    rewrite (lex_int _ (dec (Pos.to_nat q))); [|apply dec_nonempty|apply dec_all_digits|reflexivity|reflexivity].
+    rewrite digits_val_dec, positive_nat_Z, lex_rp_end. reflexivity.
+Qed.
+
+Lemma p_term_toks i k rest :
+  p_primary 1 (term_toks (S i) k ++ rest) = Some (SVar i k, rest).
+Proof.
+  unfold term_toks. cbn [app p_primary].
+  assert (E : str_eqb (lit "solved_values") (lit "solved_values") = true) by reflexivity. rewrite E.
+  unfold p_term.
+  assert (E2 : str_eqb (lit "index") (lit "index") = true) by reflexivity. rewrite E2.
+  assert (E3 : (1 <=? Z.of_nat (S i)) = true) by (apply Z.leb_le; lia). rewrite E3. cbn [andb].
+  assert (E4 : Z.to_nat (Z.of_nat (S i) - 1) = i) by lia. rewrite E4.
+  destruct k; reflexivity.
+Qed.
+
+(* WRITER AND READER AGREE, for every variable position and every lag / lead: the text build_fortran_definition writes for
+   `NAME[t+k]` (NAME at position i of the Python class's variable order) is read by the Fortran expression grammar as the variable
+   node (row i, period t + k) — the node the Python-side tree carries *)
+Theorem term_text_reads_back i k :
+  let txt := term_f (S i) (idx_text k) in
+  match lex (S (length txt)) txt with Some ts => p_primary 1 ts | None => None end = Some (SVar i k, []).
+Proof.
+  cbv zeta. unfold term_f. rewrite replace_t_idx_text.
+  rewrite lex_term.
+  - rewrite <- (app_nil_r (term_toks (S i) k)). apply p_term_toks.
+  - rewrite app_length. cbn [lit list_ascii_of_string length]. lia.
+Qed.
